@@ -86,11 +86,16 @@ type spyManager struct {
 	starts  map[int64]int
 	dropped map[int64]bool
 	addPart map[string]int
+	startDB map[int64]string // database name each collection was started under
 }
 
 func (s *spyManager) StartReadCollection(ctx context.Context, db *model.DatabaseInfo, info *pb.CollectionInfo, seek []*msgpb_MsgPosition, m map[string]uint64) error {
 	s.mu.Lock()
 	s.starts[info.ID]++
+	if s.startDB == nil {
+		s.startDB = map[int64]string{}
+	}
+	s.startDB[info.ID] = db.Name
 	s.mu.Unlock()
 	return s.ChannelManager.StartReadCollection(ctx, db, info, seek, m)
 }
@@ -132,9 +137,11 @@ func propC13(t *rapid.T) {
 	dbNames := map[int64]string{1: "default", 2: "db2"}
 	var writes []cwrite
 	writes = append(writes, cwrite{"db default", func(w *catalog.Writer) error { return w.PutDatabase(1, "default", false) }},
-		cwrite{"db db2", func(w *catalog.Writer) error { return w.PutDatabase(2, "db2", false) }},
 		cwrite{"tso", func(w *catalog.Writer) error { return w.PutTSO(base.Add(time.Hour)) }})
 	fixedPrefix := len(writes)
+	// the second database is created when it is first used: its creation is part of the history and may fall into any phase,
+	// also after the task has started
+	db2Created := false
 	var colls []*c13Coll
 	liveByName := map[string]*c13Coll{}
 	cid, pid := int64(100), int64(1000)
@@ -168,6 +175,10 @@ func propC13(t *rapid.T) {
 		name := rapid.SampledFrom([]string{"c1", "c2"}).Draw(t, "name")
 		key := fmt.Sprintf("%d/%s", dbID, name)
 		c := liveByName[key]
+		if dbID == 2 && !db2Created {
+			db2Created = true
+			writes = append(writes, cwrite{"db db2", func(w *catalog.Writer) error { return w.PutDatabase(2, "db2", false) }})
+		}
 		if c == nil {
 			cid++
 			c = &c13Coll{id: cid, dbID: dbID, db: dbNames[dbID], name: name, ctime: nextTs(), parts: map[string]*c13Part{}, vchan: fmt.Sprintf("src-dml_0_%dv0", cid)}
@@ -297,7 +308,15 @@ func propC13(t *rapid.T) {
 		}
 	}()
 	selectAll := rapid.Bool().Draw(t, "selectAll")
-	selected := func(db, name string) bool { return selectAll || (db == "default" && (name == "c1" || name == "c1-sentinel")) }
+	// a named selection names one collection of one database: default.c1 or db2.c1 (the sentinel collection of the default
+	// database is always selected)
+	selDB := "default"
+	if !selectAll && rapid.Bool().Draw(t, "namedSelectionInSecondDatabase") {
+		selDB = "db2"
+	}
+	selected := func(db, name string) bool {
+		return selectAll || (db == selDB && name == "c1") || (db == "default" && name == "c1-sentinel")
+	}
 	should := func(d *model.DatabaseInfo, info *pb.CollectionInfo) (bool, bool) {
 		return false, !d.Dropped && selected(d.Name, info.Schema.Name)
 	}
@@ -408,6 +427,12 @@ func propC13(t *rapid.T) {
 			if n != 1 {
 				t.Fatalf("live collection %d (%s.%s) selected by the task was never started\n%s", c.id, c.db, c.name, desc())
 			}
+			spy.mu.Lock()
+			sdb := spy.startDB[c.id]
+			spy.mu.Unlock()
+			if sdb != c.db {
+				t.Fatalf("live collection %d (%s.%s) was started under the database name %q\n%s", c.id, c.db, c.name, sdb, desc())
+			}
 			for pn, p := range c.parts {
 				if pn == "_default" {
 					continue
@@ -425,9 +450,17 @@ func propC13(t *rapid.T) {
 	var hs []string
 	hs = append(hs, hist...)
 	sort.Strings(hs)
+	dbAfterStart := false
+	for i, wr := range writes {
+		if wr.desc == "db db2" && phaseOf(i) != "before-start" {
+			dbAfterStart = true
+		}
+	}
+	sc.ClassIf(dbAfterStart, "database-created-after-the-task-started")
 	sc.ClassIf(inWindow, "write-between-watch-open-and-start-watch")
 	sc.ClassIf(selectAll, "select-*")
 	sc.ClassIf(!selectAll, "select-named")
+	sc.ClassIf(!selectAll && selDB == "db2", "select-named-in-second-database")
 	sc.Count("collections_that_must_start", mustStart)
 	sc.Count("collections_started", started)
 	sc.NonTrivial(inWindow && mustStart > 0)
